@@ -112,6 +112,30 @@ pub(crate) fn decompress_merkle_proofs<F: RichField, H: Hasher<F>>(
     decompressed_proofs
 }
 
+/// Read-only re-exports for the /verif simulator (observation only).
+#[cfg(feature = "verif_hooks")]
+pub mod verif_hooks {
+    use super::*;
+
+    pub fn compress<F: RichField, H: Hasher<F>>(
+        cap_height: usize,
+        indices: &[usize],
+        proofs: &[MerkleProof<F, H>],
+    ) -> Vec<MerkleProof<F, H>> {
+        compress_merkle_proofs(cap_height, indices, proofs)
+    }
+
+    pub fn decompress<F: RichField, H: Hasher<F>>(
+        leaves_data: &[Vec<F>],
+        leaves_indices: &[usize],
+        compressed_proofs: &[MerkleProof<F, H>],
+        height: usize,
+        cap_height: usize,
+    ) -> Vec<MerkleProof<F, H>> {
+        decompress_merkle_proofs(leaves_data, leaves_indices, compressed_proofs, height, cap_height)
+    }
+}
+
 #[cfg(test)]
 mod tests {
     use rand::rngs::OsRng;
